@@ -215,11 +215,16 @@ fn digest(b: &[u8]) -> String {
 }
 
 pub fn observe_bw(c: &J, ctx: &mut Ctx, bytes: Vec<u8>) -> J {
-    let mut obs = json!({"result": "ok", "digest": digest(&bytes)});
-    let mut r = match BigWigRead::open(std::io::Cursor::new(bytes)) {
+    let d = digest(&bytes);
+    let r = match BigWigRead::open(std::io::Cursor::new(bytes)) {
         Ok(r) => r,
         Err(e) => return json!({"result": "openerr", "err": e.to_string()}),
     };
+    if c["cached"].as_i64().unwrap_or(0) == 1 { observe_bw_r(c, ctx, r.cached(), d) } else { observe_bw_r(c, ctx, r, d) }
+}
+
+pub fn observe_bw_r<R: bigtools::BBIFileRead>(c: &J, ctx: &mut Ctx, mut r: BigWigRead<R>, d: String) -> J {
+    let mut obs = json!({"result": "ok", "digest": d});
     let chroms: Vec<(String, u32)> = r.chroms().iter().map(|c| (c.name.clone(), c.length)).collect();
     obs["chroms"] = J::Array(chroms.iter().map(|(n, l)| json!([ctx.chrom_idx(n), ctx.pos_out(*l)])).collect());
     let mut read = vec![];
@@ -324,11 +329,16 @@ pub fn observe_bw(c: &J, ctx: &mut Ctx, bytes: Vec<u8>) -> J {
 }
 
 pub fn observe_bb(c: &J, ctx: &mut Ctx, bytes: Vec<u8>) -> J {
-    let mut obs = json!({"result": "ok", "digest": digest(&bytes)});
-    let mut r = match BigBedRead::open(std::io::Cursor::new(bytes)) {
+    let d = digest(&bytes);
+    let r = match BigBedRead::open(std::io::Cursor::new(bytes)) {
         Ok(r) => r,
         Err(e) => return json!({"result": "openerr", "err": e.to_string()}),
     };
+    if c["cached"].as_i64().unwrap_or(0) == 1 { observe_bb_r(c, ctx, r.cached(), d) } else { observe_bb_r(c, ctx, r, d) }
+}
+
+pub fn observe_bb_r<R: bigtools::BBIFileRead>(c: &J, ctx: &mut Ctx, mut r: BigBedRead<R>, d: String) -> J {
+    let mut obs = json!({"result": "ok", "digest": d});
     let n_items = c["items"].as_array().map(|a| a.len()).unwrap_or(0);
     let rests: HashMap<String, i64> = (1..=n_items).map(|i| (rest_for(c, i), i as i64)).collect();
     let uniq = rests.len() == n_items;
@@ -452,6 +462,13 @@ pub fn observe_bb(c: &J, ctx: &mut Ctx, bytes: Vec<u8>) -> J {
     obs["unmapped"] = json!(if ctx.unmapped {1} else {0});
     obs["nonint"] = json!(if ctx.nonint {1} else {0});
     obs
+}
+
+/// vh readfile: observe a file somebody else wrote (C10)
+pub fn run_readfile(c: &J) -> J {
+    let mut ctx = Ctx::from(c);
+    let bytes = match std::fs::read(c["path"].as_str().unwrap()) { Ok(b) => b, Err(e) => return json!({"result": "ioerr", "err": e.to_string()}) };
+    if c["kind"].as_str().unwrap() == "bw" { observe_bw(c, &mut ctx, bytes) } else { observe_bb(c, &mut ctx, bytes) }
 }
 
 /// vh bbi: write + observe
